@@ -126,13 +126,23 @@ func c14RespDigest(kind string, res abci.ResponseDeliverTx) string {
 
 // runBlock feeds one block to a node through ABCI and returns the digest of everything a node reports.
 func c14RunBlock(n *app.Teleport, hdr tmproto.Header, txs [][]byte) c14BlockResult {
+	return c14RunBlockVia(n, hdr, txs, false)
+}
+
+// via = true: DeliverTx / EndBlock reached through the ABCI local client below extra stack frames (another call path)
+func c14RunBlockVia(n *app.Teleport, hdr tmproto.Header, txs [][]byte, via bool) c14BlockResult {
 	var parts []string
 	var out c14BlockResult
 	pan, msg := safely(func() {
 		bb := n.BeginBlock(abci.RequestBeginBlock{Header: hdr})
 		parts = append(parts, "begin:e"+c14Events(bb.Events))
 		for _, tx := range txs {
-			res := n.DeliverTx(abci.RequestDeliverTx{Tx: tx})
+			var res abci.ResponseDeliverTx
+			if via {
+				res = c14DeliverVia(n, abci.RequestDeliverTx{Tx: tx})
+			} else {
+				res = n.DeliverTx(abci.RequestDeliverTx{Tx: tx})
+			}
 			parts = append(parts, c14RespDigest("tx", res))
 			if res.Code == 0 {
 				out.ok++
@@ -140,7 +150,12 @@ func c14RunBlock(n *app.Teleport, hdr tmproto.Header, txs [][]byte) c14BlockResu
 				out.failed++
 			}
 		}
-		eb := n.EndBlock(abci.RequestEndBlock{Height: hdr.Height})
+		var eb abci.ResponseEndBlock
+		if via {
+			eb = c14EndBlockVia(n, abci.RequestEndBlock{Height: hdr.Height})
+		} else {
+			eb = n.EndBlock(abci.RequestEndBlock{Height: hdr.Height})
+		}
 		parts = append(parts, "end:e"+c14Events(eb.Events))
 		n.Commit()
 		parts = append(parts, "hash:"+hex.EncodeToString(n.LastCommitID().Hash))
@@ -232,7 +247,7 @@ func (p *c14Rep) liveBlock(kind string, pollution []string, txs [][]byte) {
 	n2 := p.fork(p.live)
 	hdr := p.nextHeader(p.live)
 	r1 := c14RunBlock(p.live, hdr, txs)
-	r2 := c14RunBlock(n2, hdr, txs)
+	r2 := c14RunBlockVia(n2, hdr, txs, true) // the replica is reached through another call path
 	p.record(kind, "live", pollution, r1, r2)
 }
 
@@ -251,7 +266,7 @@ func (p *c14Rep) forkBlock(kind string, txs func(clean *app.Teleport) [][]byte, 
 		pl = append(pl, "panic:"+c14Digest([]byte(msg)))
 	}
 	r1 := c14RunBlock(n1, hdr, bs)
-	r2 := c14RunBlock(n2, hdr, bs)
+	r2 := c14RunBlockVia(n2, hdr, bs, true)
 	p.record(kind, "fork", pl, r1, r2)
 }
 
